@@ -486,13 +486,23 @@ class Summaries(object):
         if k not in W:
             W[k] = w
 
-    def _field_name(self, e):
+    def _field_name(self, e, f=None, node=None, depth=0):
         if isinstance(e, ast.Attribute):
             return e.attr
         if isinstance(e, ast.Name):
+            # a local bound once to a field (`pending = self.loading`) names that field
+            if f is not None and node is not None and depth < 4 and e.id not in f.params:
+                try:
+                    ds = reaching_defs(self.cfg(f), node, e.id)
+                except Exception:
+                    ds = ()
+                if len(ds) == 1:
+                    v = def_value(next(iter(ds)), e.id)
+                    if isinstance(v, (ast.Attribute, ast.Name)):
+                        return self._field_name(v, f, next(iter(ds)), depth + 1)
             return e.id
         if isinstance(e, ast.Subscript):
-            return self._field_name(e.value) + "[]"
+            return self._field_name(e.value, f, node, depth) + "[]"
         if isinstance(e, ast.Call):
             return unparse(e.func).split(".")[-1] + "()"
         return unparse(e)[:30]
@@ -522,7 +532,7 @@ class Summaries(object):
                                                 self.k.class_by_kind(x).lookup_method(dunder) is None for x in kinds)
         if builtin_possible:
             for o in self.origin(target.value, f, node):
-                self._add(W, Write("list", self._field_name(target.value), dunder, o, f.short, node.lineno,
+                self._add(W, Write("list", self._field_name(target.value, f, node), dunder, o, f.short, node.lineno,
                                    unparse(node.ast).split("\n")[0][:80]))
 
     def _dunder(self, recv, name, args, f, node, W):
@@ -570,7 +580,7 @@ class Summaries(object):
                         if isinstance(recv, ast.Call) and isinstance(recv.func, ast.Name) and recv.func.id == "super":
                             recv = ast.Name(id=f.params[0], ctx=ast.Load())
                         for o in self.origin(recv, f, node):
-                            self._add(W, Write("list", self._field_name(recv), m, o, f.short, node.lineno,
+                            self._add(W, Write("list", self._field_name(recv, f, node), m, o, f.short, node.lineno,
                                                unparse(node.ast).split("\n")[0][:80]))
                         # element tracking for local containers
                         if isinstance(recv, ast.Name) and m in ("append", "add", "insert") and call.args:
